@@ -2,11 +2,15 @@ package c01
 
 import (
 	"bytes"
+	"context"
 	"fmt"
 	"os"
+	"os/exec"
 	"path/filepath"
 	"strconv"
 	"strings"
+	"syscall"
+	"time"
 
 	"github.com/lindb/lindb/pkg/bufioutil"
 
@@ -20,7 +24,43 @@ import (
 // same records back with its own reader (buffer size as a parameter).
 type entriesArea struct{}
 
-func init() { core.Register(entriesArea{}) }
+// readerEnv: when set, this process is the short-lived reader child of the entries area: a misframed
+// length can make the real reader allocate an absurd buffer, which must not take the harness down.
+const readerEnv = "LVH_C01_ENTRIES_READ"
+
+func init() {
+	if p := os.Getenv(readerEnv); p != "" {
+		lim := syscall.Rlimit{Cur: 6 << 30, Max: 6 << 30}
+		_ = syscall.Setrlimit(syscall.RLIMIT_AS, &lim)
+		fmt.Print(readBackTok(p))
+		os.Exit(0)
+	}
+	core.Register(entriesArea{})
+}
+
+// readBackTok reads every entry of the file with the real BufioEntryReader: "n clean tok tok ...".
+func readBackTok(p string) string {
+	rd, err := bufioutil.NewBufioEntryReader(p)
+	if err != nil {
+		return "open-error"
+	}
+	defer rd.Close()
+	var toks []string
+	clean := true
+	for rd.Next() {
+		content, err := rd.Read()
+		if err != nil {
+			clean = false
+			break
+		}
+		toks = append(toks, sumTok(content))
+		if len(toks) > 100000 {
+			clean = false
+			break
+		}
+	}
+	return strings.TrimSpace(fmt.Sprintf("ok n=%d clean=%v %s", len(toks), clean, strings.Join(toks, " ")))
+}
 
 func (entriesArea) Name() string { return "entries" }
 
@@ -129,6 +169,7 @@ func runEntries(c *core.Ctx, lens []int, syncEach bool) string {
 		return "harness-error"
 	}
 	var want [][]byte
+	_ = bytes.Equal
 	for i, n := range lens {
 		r := recBytes(i, n)
 		want = append(want, r)
@@ -142,43 +183,30 @@ func runEntries(c *core.Ctx, lens []int, syncEach bool) string {
 	if err := w.Close(); err != nil {
 		return "close-error"
 	}
-	rd, err := bufioutil.NewBufioEntryReader(p)
-	if err != nil {
-		return "open-error"
+	// read back in a child process (same binary, real reader)
+	ctx, cancel := context.WithTimeout(context.Background(), 90*time.Second)
+	defer cancel()
+	cmd := exec.CommandContext(ctx, os.Args[0])
+	cmd.Env = append(os.Environ(), readerEnv+"="+p)
+	outb, cerr := cmd.Output()
+	got := strings.TrimSpace(string(outb))
+	wtoks := make([]string, len(want))
+	for i, w := range want {
+		wtoks[i] = sumTok(w)
 	}
-	defer rd.Close()
-	var got [][]byte
-	clean := true
-	for rd.Next() {
-		content, err := rd.Read()
-		if err != nil {
-			clean = false
-			break
-		}
-		got = append(got, append([]byte(nil), content...))
-		if len(got) > len(want)+5 {
-			break
-		}
-	}
+	expect := strings.TrimSpace(fmt.Sprintf("ok n=%d clean=true %s", len(want), strings.Join(wtoks, " ")))
 	// the property on the implementation: what was written is what is read back
-	same := len(got) == len(want) && clean
-	if same {
-		for i := range got {
-			if !bytes.Equal(got[i], want[i]) {
-				same = false
-				break
-			}
+	if cerr != nil || got != expect {
+		if cerr != nil {
+			got = "reader-died"
 		}
+		first := got
+		if len(first) > 120 {
+			first = first[:120]
+		}
+		c.Fail("entries-not-read-back", fmt.Sprintf("%d records (lengths %v...) written with the entry writer; the entry reader returned: %s", len(want), head(lens, 8), first))
 	}
-	if !same {
-		c.Fail("entries-not-read-back", fmt.Sprintf("%d records (lengths %v...) written with the entry writer; the entry reader returned %d records, clean end=%v",
-			len(want), head(lens, 8), len(got), clean))
-	}
-	toks := make([]string, len(got))
-	for i, g := range got {
-		toks[i] = sumTok(g)
-	}
-	return strings.TrimSpace(fmt.Sprintf("ok n=%d clean=%v %s", len(got), clean, strings.Join(toks, " ")))
+	return got
 }
 
 func head(l []int, n int) []int {
